@@ -234,9 +234,24 @@ func main() {
 	}
 	// hang watchdog: a single call never legitimately runs for 20 s
 	go func() {
+		ms := new(runtime.MemStats) // allocated once: the allocation measurements of C05 must not see this goroutine
 		for {
 			time.Sleep(500 * time.Millisecond)
 			c := curCase.Load()
+			// a call that makes the heap explode is stopped before the machine is (the library never allocates)
+			runtime.ReadMemStats(ms)
+			if ms.HeapAlloc > 6<<30 {
+				f := Finding{Kind: "fatal", Detail: fmt.Sprintf("heap grew to %d MiB during a call", ms.HeapAlloc>>20)}
+				if c != nil {
+					f.Fn, f.Case = c.Fn, c.line()
+				}
+				x.finding(f)
+				st.Notes = append(st.Notes, "aborted by watchdog (heap)")
+				w.Flush()
+				js, _ := json.MarshalIndent(st, "", " ")
+				os.WriteFile(filepath.Join(*out, "stats.json"), js, 0o644)
+				os.Exit(3)
+			}
 			if c != nil && time.Now().UnixNano()-curSince.Load() > int64(20*time.Second) {
 				x.finding(Finding{Kind: "hang", Fn: c.Fn, Case: c.line(), Detail: "call did not return within 20s"})
 				st.Notes = append(st.Notes, "aborted by watchdog")
